@@ -137,7 +137,8 @@ pub fn gen_flat_doc(rng: &mut Rng, size: usize, hermes: bool) -> Value {
 }
 
 pub fn gen_index_doc(rng: &mut Rng, size: usize, depth: usize) -> Value {
-    let n = 1 + rng.below(3);
+    // (an index map may have NO sections at all: the key alone decides the kind -- empty containers are a class)
+    let n = if rng.chance(1, 8) { 0 } else { 1 + rng.below(3) };
     let mut line = 0u64;
     let mut secs = vec![];
     let mut same: Option<(u64, u64)> = None;
